@@ -213,6 +213,12 @@ BuildC06(d) ==
                  pri(fba[1], pr1, "ko", ds[38] % 2 = 1)>>
                \o (IF prf = <<>> THEN <<>> ELSE
                    <<pri(fba[5], prf, "flag", ds[39] % 2 = 0), pri(fba[7], prf, "flag", ds[39] % 2 = 1)>>)
+               \* "rewritten": the rules the model has NOW are what in-place rewriting left of richer ones -- the model was
+               \* built with every rule as "(rule) or gX", a complete gene deletion ran on it, and
+               \* remove_genes(model, [gX], remove_reactions=False) then rewrote every rule in place.  The documented
+               \* result is that of the model as it stands (no prior knock-outs).
+               \o <<pri(fba[5], <<>>, "rewritten", FALSE), pri(fba[8], <<>>, "rewritten", FALSE)>>
+               \o (IF ~h THEN <<>> ELSE <<pri([base EXCEPT !.k = "ess_g"], <<>>, "rewritten", FALSE)>>)
                \o (IF ~h THEN <<>> ELSE
                    <<pri([base EXCEPT !.k = "ess_g"], pr1, "ko", ds[40] % 2 = 0)>>
                    \o (IF prf = <<>> THEN <<>> ELSE <<pri([base EXCEPT !.k = "ess_g"], prf, "flag", ds[40] % 2 = 1)>>))
@@ -224,7 +230,7 @@ WithComp(M) == [rxns |-> M.rxns, mets |-> M.mets, S |-> M.S, lb |-> M.lb, ub |->
                 comp |-> CompOf(NM(M))]
 DrawMedium(M, ds, k) ==
   [r \in RIdx(M) |-> IF r \in Exchanges(M) /\ ds[k + r] % 3 # 0 THEN (ds[k + r] \div 3) % 4 ELSE Absent]
-NoMed == [k |-> "none", d |-> <<>>, g |-> 0, exports |-> FALSE, mc |-> 0, open |-> 0, opentrue |-> FALSE]
+NoMed == [k |-> "none", d |-> <<>>, g |-> 0, exports |-> FALSE, mc |-> 0, open |-> 0, opentrue |-> FALSE, hist |-> "none"]
 BuildC18(d) ==
   LET M0 == InstModel(d) ds == ArgDraws(d) M == WithComp(M0) F == Feasible(M) IN
   IF ~(IsUnitNetwork(M) /\ Exchanges(M) # {} /\ (Mode = "rand" \/ (HasOptF(F, M) /\ Interesting(F, M))))
@@ -242,10 +248,14 @@ BuildC18(d) ==
       fin == \A r \in Exchanges(M) : FinLB(M, r) /\ FinUB(M, r)
       mins == <<mm(1, FALSE, 0, 0), mm(top, FALSE, 0, 0), mm(top + 1, FALSE, 0, 0), mm(1, TRUE, 0, 0),
                 mm(1 + (ds[21] % 2), FALSE, 0, k), mm(top, TRUE, 0, k),
-                [mm(1, FALSE, 0, 0) EXCEPT !.opentrue = TRUE]>>
+                [mm(1, FALSE, 0, 0) EXCEPT !.opentrue = TRUE],
+                \* hist = "flipped": the model object was reached through history -- every exchange written the other way
+                \* round (r *= -1), minimal_medium called once on that, every exchange flipped back in place; the
+                \* documented result is that of the model as it stands
+                [mm(top, FALSE, 0, 0) EXCEPT !.hist = "flipped"], [mm(1, TRUE, 0, 0) EXCEPT !.hist = "flipped"]>>
               \o (IF fin \/ Mode = "rand"          \* infinite exchange bounds + components: F33 (drawn instances only)
                   THEN <<mm(1, FALSE, 1, 0), mm(1, FALSE, 2, 0), mm(top, FALSE, 3, 0), mm(top + 1, FALSE, 1, 0),
-                         mm(1, TRUE, 2, 0)>> ELSE <<>>)
+                         mm(1, TRUE, 2, 0), [mm(1, FALSE, 1, 0) EXCEPT !.hist = "flipped"]>> ELSE <<>>)
               \o <<mm(1, FALSE, 1, k), mm(top, FALSE, 2, k)>>
   IN [skip |-> FALSE, M |-> M, calls |-> meds \o mins]
 
